@@ -9,6 +9,11 @@ GROUPS = [G("decoder_process_int16"), G("decoder_process_float32"), G("decoder_s
           dict(name="alignment_init_refcount", harness="harness/C09_refcount.c", entry="h_alignment_init", enforce="alignment_init", replace=["dict2pid_retain"], allow_no_body=["*"], min_postconditions=2),
           dict(name="alignment_free_refcount", harness="harness/C09_refcount.c", entry="h_alignment_free", enforce="alignment_free", replace=["dict2pid_free"], allow_no_body=["*"], min_postconditions=2)]
 NATIVE = [
+    dict(name="protocol_walk", source="native/protocol_walk.c", repo_sources="ALL_EXCEPT:", cflags=["-w", "-fsanitize=address"],
+         env={"ASAN_OPTIONS": "detect_leaks=1:exitcode=1:fast_unwind_on_malloc=0"},
+         args={"quick": [], "thorough": ["thorough"]}, exhaustive=False, timeout=3000,
+         bound="60 pseudo-random walks (thorough 400) of 25 public API calls each on a real decoder (en-us): mostly in protocol, a fraction out of order / with empty arguments / missing files; "
+               "AddressSanitizer on every call, the reference recording must decode to the reference result after every walk, LeakSanitizer at exit after decoder_free"),
     dict(name="e2e_invariants", source="native/e2e_invariants.c", repo_sources="ALL_EXCEPT:", cflags=["-w", "-fsanitize=address"],
          args={"quick": ["C09"], "thorough": ["C09"]}, exhaustive=False,
          bound="end-to-end invariants of this property on ~12 real decodes (bundled en-us / fr-fr models; goforward recordings with JSGF grammar, FSG file and forced-alignment text; one call, 2048-sample blocks with partial results, float32; digital silence; white noise) under AddressSanitizer -- a safety net under the contracts, not a proof"),
